@@ -437,7 +437,14 @@ fn guarded_reads<'a>(ctx: &mut Ctx, ts: &'a [Term<'a>], m: &Model, hist: &dyn Fn
             configs.push(("unrelated", vec![u]));
         }
         for (cfg, idxs) in configs {
-            ctx.rep.tally(&format!("guarded_reads_{}_{}", cfg, if partner.is_some() { "linked" } else { "unlinked" }));
+            ctx.rep.tally(match (cfg, partner.is_some()) {
+                ("self", true) => "guarded_reads_self_linked",
+                ("self", false) => "guarded_reads_self_unlinked",
+                ("partner", _) => "guarded_reads_partner_linked",
+                ("both", _) => "guarded_reads_both_linked",
+                (_, true) => "guarded_reads_unrelated_linked",
+                (_, false) => "guarded_reads_unrelated_unlinked",
+            });
             let got = {
                 let _guards: Vec<std::cell::Ref<'_, Terminal<'a, E>>> = idxs.iter().map(|&x| ts[x].borrow()).collect();
                 take_reads(&ts[k])
@@ -1157,7 +1164,7 @@ fn sem_steps<'a>(ctx: &mut Ctx, ts: &'a [Term<'a>], rng: &mut Rng, w: &mut World
         if !check_reads(ctx, ts, w, &hist) {
             return false;
         }
-        if rng.chance(0.4) && !guarded_reads(ctx, ts, &w.m, &hist) {
+        if rng.chance(0.12) && !guarded_reads(ctx, ts, &w.m, &hist) {
             return false;
         }
     }
